@@ -102,6 +102,13 @@ def run(tier):
                          case="kundur/kundur_full.json", family="trip", segs=[1.2], fail=fails, tds=tds,
                          events=[dict(add="Toggle", model="Line", dev="Line_8", t=0.5)]))
     real += tdsfam.time_constant_scenarios() + tdsfam.tiny_step_scenarios()
+    # disturbances that drive anti-windup limiters to a limit and let them come back (the integrator is told which states are
+    # pegged by the limiters; a state that is free again must follow its equation from that step on)
+    for bus, t1, t2, xf in ((7, 0.5, 0.6, 0.01), (8, 0.2, 0.45, 0.001)) + (() if quick else ((9, 0.3, 0.4, 0.02), (7, 0.1, 0.35, 0.005))):
+        real.append(dict(sid="limits[kundur_full|fault bus %d %g-%g s]" % (bus, t1, t2), case="kundur/kundur_full.json", family="limits", segs=[3.0],
+                         events=[dict(add="Fault", bus=bus, tf=t1, tc=t2, xf=xf)], tds=dict(no_tqdm=1, criteria=0)))
+    real.append(dict(sid="limits[ieee14_fault]", case="ieee14/ieee14_fault.json", family="limits", segs=[2.0], events=[], drop_stock_events=False,
+                     tds=dict(no_tqdm=1)))
     out = tdsfam.run_and_validate(real, rep, timeout=600, label="failure plans")
     tdsfam.judge(PID, out, rep)
     for sc, o in out[:2]:
